@@ -6,6 +6,7 @@ state after it.  The verdict on the trace is TLC's (Store_Trace.tla).
 
 Script operations (tuples):
     ("submit", sym)          storage.add_event(concrete event)
+    ("service", sym)         storage.add_service_event(content, kind, tags, created_at of the described event): signed by the relay
     ("writer",)              one transaction of the LMDB writer (no-op line on SQL is not emitted)
     ("drain",)               writer steps until the queue is empty (one Writer line each)
     ("gc", T)                one garbage-collection pass with the clock at T0+T
@@ -346,6 +347,28 @@ async def run_script(st, backend, uni, script, log_errors=None, keydump=None):
                     log_errors.append((sym, reason))
             lines.append({"a": "Submit", "id": sym, "ok": ok, "post": await dump_ids(st, backend, uni),
                           "q": wq_abstract(st, uni), "bc": [uni.sym_event(e) or "?" + e.id[:16] for e in rec.take_events()], "_reason": reason})
+        elif kind == "service":
+            # an internal service event: the relay builds and signs it itself (BaseStorage.add_service_event) from the content,
+            # kind, tags and timestamp of the universe's description and pushes it through add_event.  What it built is judged by
+            # the authenticity oracle (auth_obs) and, if it is the described event, takes the description's place in the universe
+            # (the relay's own signature included) so that dumps, look-ups and answers are projected against it.
+            sym = op[1]
+            ref = uni.conc[sym]
+            built = None
+            try:
+                ev_obj = await st.add_service_event(content=ref["content"], kind=ref["kind"], tags=_clone(ref["tags"]), created_at=ref["created_at"])
+                built = ev_obj.to_json_object() if hasattr(ev_obj, "to_json_object") else dict(ev_obj)
+                ok, reason = True, ""
+            except Exception as e:
+                ok, reason = False, "%s: %s" % (type(e).__name__, e)
+            auth_obs = True
+            if built is not None:
+                auth_obs = bool(C.is_authentic(built))
+                if all(built.get(k) == ref[k] for k in ("id", "pubkey", "created_at", "kind", "content")) and C._dump(built.get("tags")) == C._dump(ref["tags"]):
+                    uni.conc[sym] = built
+            lines.append({"a": "Submit", "id": sym, "ok": ok, "post": await dump_ids(st, backend, uni), "q": wq_abstract(st, uni),
+                          "bc": [uni.sym_event(e) or "?" + e.id[:16] for e in rec.take_events()], "auth_obs": auth_obs, "_reason": reason,
+                          "_service": True})
         elif kind == "writer":
             if backend == "lmdb" and st._verif_gate.items:
                 writer_step(st, 1)
